@@ -1,2 +1,302 @@
-import Fips204.Gen.Kernels
-def main : IO Unit := IO.println "stub"
+/-
+  model — the line-protocol driver (DESIGN 4.2): reads the same operation lines as the Rust
+  executor and answers from the Lean model (`Fips204.Impl`), instantiated with real SHAKE/SHA-2.
+  Usage: model --mode checked|release   (operations on stdin, one result line each on stdout)
+-/
+import Fips204.Impl.Api
+import Fips204.Exec.Keccak
+import Fips204.Exec.Sha2
+open Fips204 Fips204.Gen Fips204.Impl
+
+namespace Fips204.Exec
+
+def realOracles (scale : Nat) : Oracles :=
+  { h := shake256, g := shake128, sha256 := sha256, sha512 := sha512, fuelScale := scale }
+
+-- ---------------------------------------------------------------- parsing / printing
+def hexVal (c : Char) : Nat :=
+  if '0' ≤ c ∧ c ≤ '9' then c.toNat - '0'.toNat
+  else if 'a' ≤ c ∧ c ≤ 'f' then c.toNat - 'a'.toNat + 10
+  else if 'A' ≤ c ∧ c ≤ 'F' then c.toNat - 'A'.toNat + 10 else 0
+
+def parseHex (s : String) : List Nat :=
+  if s == "-" then [] else
+  let rec go : List Char → List Nat → List Nat
+    | a :: b :: rest, acc => go rest ((hexVal a * 16 + hexVal b) :: acc)
+    | _, acc => acc.reverse
+  go s.toList []
+
+def hexDigit (n : Nat) : Char := if n < 10 then Char.ofNat (48 + n) else Char.ofNat (87 + n)
+
+def toHex (b : List Nat) : String :=
+  if b.isEmpty then "-" else
+  String.ofList (b.foldr (fun x acc => hexDigit (x / 16 % 16) :: hexDigit (x % 16) :: acc) [])
+
+def parseInt (s : String) : Int := s.toInt?.getD 0
+
+def parsePoly (s : String) : Poly :=
+  if s.startsWith "c" then List.replicate 256 (parseInt (s.drop 1).toString)
+  else if s.startsWith "e" then
+    match (s.drop 1).toString.splitOn ":" with
+    | [i, v] => (List.replicate 256 (0 : Int)).set (i.toNat?.getD 0) (parseInt v)
+    | _ => zeroPoly
+  else (s.splitOn ",").map parseInt
+
+def parsePolys (s : String) : List Poly := (s.splitOn "|").map parsePoly
+
+def showPoly (p : Poly) : String := ",".intercalate (p.map toString)
+def showPolys (v : List Poly) : String := "|".intercalate (v.map showPoly)
+
+def parseScript (s : String) : List RngResp :=
+  if s == "-" then [] else
+  (s.splitOn "+").map (fun t =>
+    if t.startsWith "ok:" then RngResp.ok (parseHex (t.drop 3).toString)
+    else if t.startsWith "errafter:" then RngResp.errAfter (parseHex (t.drop 9).toString)
+    else RngResp.errBefore)
+
+def showCalls (cs : List RngCall) : String :=
+  if cs.isEmpty then "-" else
+  ",".intercalate (cs.map (fun c => match c with
+    | .tryFill n => s!"tryfill{n}" | .fill n => s!"fill{n}" | .nextU32 => "nextu32" | .nextU64 => "nextu64"))
+
+def showFault (f : Fault) : String := s!"panic:{f.kind}:{f.site}"
+
+def paramSet (s : String) : Option ParamSet :=
+  if s == "44" then some ml_dsa_44 else if s == "65" then some ml_dsa_65 else if s == "87" then some ml_dsa_87 else none
+
+-- ---------------------------------------------------------------- kernels and sweeps
+def kernel (m : Mode) (name : String) (p1 p2 a : Int) : M (List Int) :=
+  match name with
+  | "partial_reduce32" => do pure [← partial_reduce32 m a]
+  | "full_reduce32" => do pure [← full_reduce32 m a]
+  | "center_mod" => do pure [← center_mod m a]
+  | "mont_reduce" => do pure [← mont_reduce m a]
+  | "partial_reduce64" => do pure [← partial_reduce64 m a]
+  | "partial_reduce64s" => do pure [← to_mont_coeff m a]
+  | "mont_reduce_hl" => do pure [← mont_reduce m (p1 * 4294967296 + a % 4294967296)]
+  | "bit_length" => do pure [← bit_length m a]
+  | "decompose" => do let (r1, r0) ← decompose m p1 a; pure [r1, r0]
+  | "high_bits" => do pure [← high_bits m p1 a]
+  | "low_bits" => do pure [← low_bits m p1 a]
+  | "make_hint" => do let b ← make_hint m p1 p2 a; pure [if b then 1 else 0]
+  | "use_hint" => do pure [← use_hint m p1 p2 a]
+  | "power2round" => do
+      let (r1, r0) ← power2round m [a :: List.replicate 255 0]
+      pure [(r1.head!).head!, (r0.head!).head!]
+  | "coeff3" => do
+      let r ← coeff_from_three_bytes m (p1 != 0) (a % 256) (a / 256 % 256) (a / 65536 % 256)
+      pure [r.getD (-1)]
+  | "coeffhalf" => do
+      let r ← coeff_from_half_byte m (p1 != 0) p2 a
+      pure [r.getD (-99)]
+  | _ => throw (Fault.expect "unknown kernel")
+
+def fnvAdd (h : UInt64) (v : Int) : UInt64 :=
+  (h ^^^ (UInt64.ofNat (v % 18446744073709551616).toNat)) * 0x100000001b3
+
+def hex16 (h : UInt64) : String :=
+  String.ofList ((List.range 16).map (fun i => hexDigit ((h.toNat / 16 ^ (15 - i)) % 16)))
+
+partial def sweep (m : Mode) (name : String) (p1 p2 : Int) (x hi step : Int) (h : UInt64) (n : Nat) : String :=
+  if x ≥ hi then s!"{hex16 h} {n}" else
+  match kernel m name p1 p2 x with
+  | .ok vs => sweep m name p1 p2 (x + step) hi step (vs.foldl fnvAdd h) (n + 1)
+  | .error f => s!"{showFault f} at={x}"
+
+-- ---------------------------------------------------------------- key sources
+def skSrc (m : Mode) (O : Oracles) (p : ParamSet) (s : String) : M (Option PrivateKey) :=
+  if s.startsWith "gen:" then do
+    let (_, sk) ← keygenFromSeed m O p (parseHex (s.drop 4).toString); pure (some sk)
+  else if s.startsWith "rt:" then do
+    let (_, sk) ← keygenFromSeed m O p (parseHex (s.drop 3).toString)
+    expandPrivate m p (← skIntoBytes m p sk)
+  else expandPrivate m p (parseHex (s.drop 6).toString)
+
+def pkSrc (m : Mode) (O : Oracles) (p : ParamSet) (s : String) : M (Option PublicKey) :=
+  if s.startsWith "gen:" then do
+    let (pk, _) ← keygenFromSeed m O p (parseHex (s.drop 4).toString); pure (some pk)
+  else if s.startsWith "rt:" then do
+    let (pk, _) ← keygenFromSeed m O p (parseHex (s.drop 3).toString)
+    expandPublic m O p (← pkIntoBytes m p pk)
+  else if s.startsWith "der:" then do
+    match ← skSrc m O p (s.drop 4).toString with
+    | none => pure none
+    | some sk => do let pk ← privateToPublicKey m O p sk; pure (some pk)
+  else expandPublic m O p (parseHex (s.drop 6).toString)
+
+def pkDump (pk : PublicKey) : String := s!"{toHex pk.rho} {toHex pk.tr} {showPolys pk.t1d2}"
+def skDump (sk : PrivateKey) : String :=
+  s!"{toHex sk.rho} {toHex sk.key} {toHex sk.tr} {showPolys sk.s1} {showPolys sk.s2} {showPolys sk.t0}"
+
+def phOf (s : String) : Ph := if s == "sha256" then .sha256 else if s == "sha512" then .sha512 else .shake128
+
+def showSign (r : ApiRes SignOut × List RngCall) : String :=
+  match r.1 with
+  | .ok s => s!"ok {toHex s.sig} calls={showCalls r.2}"
+  | .error .ctx => s!"err:ctx calls={showCalls r.2}"
+  | .error .rng => s!"err:rng calls={showCalls r.2}"
+  | .error .malformed => s!"err:other calls={showCalls r.2}"
+
+def signFuel : Nat := 2000
+
+/-- per-parameter-set operations -/
+def setOp (m : Mode) (O : Oracles) (op : String) (p : ParamSet) (a : Array String) : M String :=
+  let arg := fun (i : Nat) => a[i]!
+  match op with
+  | "keygen" => do
+      let (pk, sk) ← keygenFromSeed m O p (parseHex (arg 0))
+      pure s!"{toHex (← pkIntoBytes m p pk)} {toHex (← skIntoBytes m p sk)}"
+  | "keygen_s" => do
+      let (pk, sk) ← keygenFromSeed m O p (parseHex (arg 0))
+      pure s!"{pkDump pk} {skDump sk}"
+  | "keygen_rng" => do
+      let (r, calls) ← keygenWithRng m O p (parseScript (arg 0))
+      match r with
+      | .ok (pk, sk) => pure s!"ok {toHex (← pkIntoBytes m p pk)} {toHex (← skIntoBytes m p sk)} calls={showCalls calls}"
+      | .error _ => pure s!"err:rng calls={showCalls calls}"
+  | "sign" => do
+      match ← skSrc m O p (arg 1) with
+      | none => pure "err:sk"
+      | some sk =>
+        let msg := parseHex (arg 2); let ctx := parseHex (arg 3); let script := parseScript (arg 4)
+        if arg 0 == "pure" then pure (showSign (← sign m O p signFuel sk msg ctx script))
+        else if arg 0 == "internal" then do
+          let rnd := match script with | RngResp.ok b :: _ => (List.range 32).map (fun i => b[i % b.length]!) | _ => List.replicate 32 0
+          pure (showSign (← internalSign m O p signFuel sk msg ctx rnd, []))
+        else pure (showSign (← hashSign m O p signFuel sk msg ctx (phOf (arg 0)) script))
+  | "verify" => do
+      match ← pkSrc m O p (arg 1) with
+      | none => pure "err:pk"
+      | some pk =>
+        let msg := parseHex (arg 2); let ctx := parseHex (arg 3); let sig := parseHex (arg 4)
+        if sig.length ≠ p.sigLen then pure "badlen" else
+        let r ← if arg 0 == "pure" then verify m O p pk msg sig ctx
+          else if arg 0 == "internal" then internalVerify m O p pk msg sig ctx
+          else hashVerify m O p pk msg sig ctx (phOf (arg 0))
+        pure (toString r)
+  | "dudect" => do pure (showSign (← dudectKeygenSign m O p signFuel (parseHex (arg 0)) (parseScript (arg 1))))
+  | "sk_from" => do match ← skSrc m O p (arg 0) with | some sk => pure s!"ok {skDump sk}" | none => pure "err"
+  | "pk_from" => do match ← pkSrc m O p (arg 0) with | some pk => pure s!"ok {pkDump pk}" | none => pure "err"
+  | "sk_rt" => do match ← skSrc m O p (arg 0) with | some sk => pure s!"ok {toHex (← skIntoBytes m p sk)}" | none => pure "err"
+  | "pk_rt" => do match ← pkSrc m O p (arg 0) with | some pk => pure s!"ok {toHex (← pkIntoBytes m p pk)}" | none => pure "err"
+  | "derive" => do
+      match ← skSrc m O p (arg 0) with
+      | none => pure "err"
+      | some sk => do
+        let pk ← privateToPublicKey m O p sk
+        pure s!"ok {pkDump pk} bytes={toHex (← pkIntoBytes m p pk)}"
+  | "sk_into_f" => do
+      let sk : PrivateKey := ⟨parseHex (arg 0), parseHex (arg 1), parseHex (arg 2), parsePolys (arg 3), parsePolys (arg 4), parsePolys (arg 5)⟩
+      pure (toHex (← skIntoBytes m p sk))
+  | "pk_into_f" => do
+      let pk : PublicKey := ⟨parseHex (arg 0), parseHex (arg 1), parsePolys (arg 2)⟩
+      pure (toHex (← pkIntoBytes m p pk))
+  | "verify_f" => do
+      let pk : PublicKey := ⟨parseHex (arg 1), parseHex (arg 2), parsePolys (arg 3)⟩
+      let msg := parseHex (arg 4); let ctx := parseHex (arg 5); let sig := parseHex (arg 6)
+      let r ← if arg 0 == "pure" then verify m O p pk msg sig ctx
+        else if arg 0 == "internal" then internalVerify m O p pk msg sig ctx
+        else hashVerify m O p pk msg sig ctx (phOf (arg 0))
+      pure (toString r)
+  | "pk_encode" => do pure (toHex (← pkEncode m p (parseHex (arg 0)) (parsePolys (arg 1))))
+  | "pk_decode" => do
+      match ← pkDecode m p (parseHex (arg 0)) with
+      | some d => pure s!"ok {toHex d.rho} {showPolys d.t1}" | none => pure "err"
+  | "sk_encode" => do
+      pure (toHex (← skEncode m p ⟨parseHex (arg 0), parseHex (arg 1), parseHex (arg 2), parsePolys (arg 3), parsePolys (arg 4), parsePolys (arg 5)⟩))
+  | "sk_decode" => do
+      match ← skDecode m p (parseHex (arg 0)) with
+      | some s => pure s!"ok {toHex s.rho} {toHex s.key} {toHex s.tr} {showPolys s.s1} {showPolys s.s2} {showPolys s.t0}"
+      | none => pure "err"
+  | "sig_encode" => do
+      pure (toHex (← sigEncode m (arg 0 == "1") p (parseHex (arg 1)) (parsePolys (arg 2)) (parsePolys (arg 3))))
+  | "sig_decode" => do
+      match ← sigDecode m p (parseHex (arg 0)) with
+      | some (c, z, h) => pure s!"ok {toHex c} {showPolys z} {showPolys h}" | none => pure "err"
+  | "w1_encode" => do pure (toHex (← w1Encode m p (parsePolys (arg 0)) p.w1Len))
+  | "expand_a" => do
+      let a ← expandA m O (arg 0 == "1") p (parseHex (arg 1))
+      pure ("|".intercalate (a.map showPolys))
+  | "expand_s" => do
+      let (s1, s2) ← expandS m O (arg 0 == "1") p (parseHex (arg 1))
+      pure s!"{showPolys s1} {showPolys s2}"
+  | "expand_mask" => do pure (showPolys (← expandMask m O p (parseHex (arg 0)) (parseInt (arg 1))))
+  | "mat_vec_mul" => do
+      let a := ((arg 0).splitOn "/").map parsePolys
+      pure (showPolys (← matVecMul m a (parsePolys (arg 1))))
+  | _ => throw (Fault.expect s!"unknown op {op}")
+
+def runOp (m : Mode) (O : Oracles) (t : Array String) : M String :=
+  let op := t[0]!
+  let a := t.extract 1 t.size
+  let arg := fun (i : Nat) => a[i]!
+  let int := fun (i : Nat) => parseInt (a[i]!)
+  if op.startsWith "k." then do
+    let vs ← kernel m (op.drop 2).toString (int 0) (int 1) (int 2)
+    pure (" ".intercalate (vs.map toString))
+  else match op with
+  | "sweep" => pure (sweep m (arg 0) (int 1) (int 2) (int 3) (int 4) (int 5) 0xcbf29ce484222325 0)
+  | "zeta" => do pure (showPoly (← genZetaTable m))
+  | "consts" => pure s!"{Q} {ZETA} {D}"
+  | "ntt" => do pure (showPolys (← ntt m (parsePolys (arg 1))))
+  | "inv_ntt" => do pure (showPolys (← invNtt m (parsePolys (arg 1))))
+  | "legacy.inv_ntt" => do pure (showPolys (← (parsePolys (arg 1)).mapM (Legacy.invNttPoly m)))
+  | "to_mont" => do pure (showPolys (← toMont m (parsePolys (arg 1))))
+  | "infinity_norm" => do pure (toString (← infinityNorm m (parsePolys (arg 1))))
+  | "is_in_range" => do pure (if (← isInRange m (parsePoly (arg 0)) (int 1) (int 2)) then "1" else "0")
+  | "add_vector_ntt" => do pure (showPolys (← addVectorNtt m (parsePolys (arg 0)) (parsePolys (arg 1))))
+  | "matvec1" => do pure (showPolys (← matVecMul m [parsePolys (arg 1)] (parsePolys (arg 2))))
+  | "matvec1_invntt" => do pure (showPolys (← invNtt m (← matVecMul m [parsePolys (arg 1)] (parsePolys (arg 2)))))
+  | "legacy.matvec1_invntt" => do
+      pure (showPolys (← (← matVecMul m [parsePolys (arg 1)] (parsePolys (arg 2))).mapM (Legacy.invNttPoly m)))
+  | "bit_pack" => do
+      let bl ← bitLen m (int 0 + int 1)
+      pure (toHex (← bitPack m (parsePoly (arg 2)) (int 0) (int 1) (32 * bl)))
+  | "simple_bit_pack" => do
+      let bl ← bitLen m (int 0)
+      pure (toHex (← simpleBitPack m (parsePoly (arg 1)) (int 0) (32 * bl)))
+  | "bit_unpack" => do
+      match ← bitUnpack m (parseHex (arg 2)) (int 0) (int 1) with | some p => pure s!"ok {showPoly p}" | none => pure "err"
+  | "simple_bit_unpack" => do
+      match ← simpleBitUnpack m (parseHex (arg 1)) (int 0) with | some p => pure s!"ok {showPoly p}" | none => pure "err"
+  | "hint_pack" => do
+      let k := (int 1).toNat; let om := int 2
+      pure (toHex (← hintBitPack m (arg 0 == "1") om (parsePolys (arg 3)) (om.toNat + k)))
+  | "hint_unpack" => do
+      match ← hintBitUnpack m (int 0).toNat (int 1) (parseHex (arg 2)) with
+      | some h => pure s!"ok {showPolys h}" | none => pure "err"
+  | "sample_in_ball" => do pure (showPoly (← sampleInBall m O (arg 0 == "1") (int 1) (parseHex (arg 2))))
+  | "rej_ntt_poly" => do pure (showPoly (← rejNttPoly m O (arg 0 == "1") (parseHex (arg 1))))
+  | "rej_bounded_poly" => do pure (showPoly (← rejBoundedPoly m O (arg 0 == "1") (int 1) (parseHex (arg 2))))
+  | "hash_message" => do
+      let (oid, phm) := hashMessage O (parseHex (arg 1)) (phOf (arg 0))
+      pure s!"{toHex oid} {toHex phm}"
+  | _ =>
+    match paramSet (arg 0) with
+    | some p => setOp m O op p (a.extract 1 a.size)
+    | none => throw (Fault.expect s!"unknown op {op}")
+
+def runLine (m : Mode) (line : String) : String :=
+  let t := ((line.splitOn " ").filter (fun s => !s.isEmpty)).toArray
+  if t.isEmpty then "" else
+  match runOp m (realOracles 1) t with
+  | .ok s => s
+  | .error (.fuel _) =>
+    -- the model ran out of oracle stream: retry with a longer prefix (the crate squeezes without bound)
+    match runOp m (realOracles 16) t with
+    | .ok s => s
+    | .error f => showFault f
+  | .error f => showFault f
+
+end Fips204.Exec
+
+partial def loop (m : Fips204.Mode) (h : IO.FS.Stream) (out : IO.FS.Stream) : IO Unit := do
+  let line ← h.getLine
+  if line.isEmpty then return ()
+  out.putStrLn (Fips204.Exec.runLine m line.trimAscii.toString)
+  loop m h out
+
+def main (args : List String) : IO Unit := do
+  let m := if args.contains "release" then Fips204.Mode.release else Fips204.Mode.checked
+  let out ← IO.getStdout
+  loop m (← IO.getStdin) out
